@@ -16,7 +16,9 @@ PROP = {'rule': 'rapid-generated cases. takeCPUs: (topology sockets1-2 x numa1-2
             'files': ['C06/c06_test.go'],
             'tests': [{'run': 'TestVerifC06TakeCPUs', 'quick': 20000, 'thorough': 150000},
                       {'run': 'TestVerifC06NUMASplit', 'quick': 20000, 'thorough': 200000},
-                      {'run': 'TestVerifC06ManagerHistory', 'quick': 3000, 'thorough': 25000, 'steps': 25}]}],
+                      {'run': 'TestVerifC06ManagerHistory', 'quick': 3000, 'thorough': 25000, 'steps': 25},
+                      {'run': 'FuzzVerifC06NUMASplit', 'fuzz': True, 'rapid': False, 'thorough_only': True, 'fuzztime': '40s'},
+                      {'run': 'FuzzVerifC06TakeCPUs', 'fuzz': True, 'rapid': False, 'thorough_only': True, 'fuzztime': '40s'}]}],
  'manifest': {'technique': 'property-based testing (rapid): generated topologies/free sets/hints with validity + completeness oracle, and '
                            'a model-based state machine over allocate/update/release',
               'text': 'Generated-input search: every takeCPUs/takePreferredCPUs result is checked for exact count and containment in the '
